@@ -9,7 +9,7 @@ LEVEL = 'model_checking'
 EXPLANATION = ('Bounded symbolic execution of the real line-search code (kernels and the real '
                'LinesearchSolver/_setup_solvers on a real System with scaled vectors); start point, Newton step, '
                'alpha, bounds and ref/ref0 are symbolic reals; z3 decides every branch and every obligation.')
-BOUNDS = dict(vector_length='quick: kernels n<=2 (scalar/wall 3), system n<=2; thorough: kernels n<=3 (scalar/wall 4), system n<=2 (+ two n=3 cases)', bound_patterns='both/lower/upper/mixed per entry',
+BOUNDS = dict(vector_length='quick: kernels n<=2 (scalar/wall 3), system n<=2; thorough: kernels n<=3 (scalar/wall 4), system n<=2 (+ two n=3 cases)', bound_patterns='both | mixed per entry (INF_BOUND sentinel inside arrays) | lower_only | upper_only (the other bound None)',
               scaling='ref,ref0 symbolic per element, both orders (ref>ref0, ref<ref0)',
               armijo_backtracks='maxiter <=2 (quick) / 3 (thorough), residual norms symbolic')
 STUBS = ['LinesearchSolver._iter_get_norm -> fresh symbolic non-negative real per call (arbitrary residual history)']
@@ -37,6 +37,10 @@ def harnesses(tier, seed):
         S('BoundsEnforceLS', 'scalar', 2, 'both')
         S('BoundsEnforceLS', 'wall', 2, 'mixed')
         S('BoundsEnforceLS', 'scalar', 2, 'mixed')
+        S('BoundsEnforceLS', 'vector', 2, 'lower_only')
+        S('BoundsEnforceLS', 'scalar', 2, 'upper_only')
+        S('BoundsEnforceLS', 'wall', 1, 'lower_only')
+        S('ArmijoGoldsteinLS', 'scalar', 1, 'upper_only')
     else:
         big = dict(wall_s=2400, max_paths=200000)
         for method in ('vector', 'scalar', 'wall'):
@@ -46,6 +50,8 @@ def harnesses(tier, seed):
                 S(ls, method, 1, 'both', 3, **big)
                 S(ls, method, 2, 'both', 2, **big)
                 S(ls, method, 2, 'mixed', 2, **big)
+                S(ls, method, 2, 'lower_only', 2, **big)
+                S(ls, method, 2, 'upper_only', 2, **big)
         K('scalar', 4, **big)
         K('wall', 4, **big)
         S('BoundsEnforceLS', 'scalar', 3, 'both', **big)
@@ -149,6 +155,13 @@ def h_system(ctx, ls, method, n, pattern, maxiter):
     if pattern == 'both':
         lower, upper = lo, up
         has_lo = has_up = [True] * n
+    elif pattern == 'lower_only':
+        # the whole variable has no upper bound (upper=None): one-sided bounds
+        lower, upper = lo, None
+        has_lo, has_up = [True] * n, [False] * n
+    elif pattern == 'upper_only':
+        lower, upper = None, up
+        has_lo, has_up = [False] * n, [True] * n
     else:
         # entry 0 only lower, entry 1 only upper, others both: absent bounds are the -/+INF_BOUND sentinel
         # (1e30) that add_output documents for "no bound" inside an array
